@@ -284,7 +284,7 @@ func (g *gen) genStatement(typ types.Type, this, that string) error {
 			p.P("return 1")
 			p.Out()
 			p.P(`}`)
-		case types.Bool:
+		case types.Bool, types.UntypedBool:
 			p.P("if %s == %s {", this, that)
 			p.In()
 			p.P("return 0")
